@@ -407,6 +407,11 @@ func cmdCheck(prop, tier string) int {
 		lines = append(lines, "  "+strings.ReplaceAll(firstLines(v.Detail, 12), "\n", "\n  "))
 		rc = 1
 	}
+	if os.Getenv("VERIF_LIST_SIGS") != "" {
+		for _, k := range keys {
+			lines = append(lines, fmt.Sprintf("SIG %s %s (run %d)", k.part, k.sig, best[k].Index))
+		}
+	}
 	if nviol > reported {
 		lines = append(lines, fmt.Sprintf("(%d further distinct violation signatures not minimised)", nviol-reported))
 	}
